@@ -72,6 +72,7 @@ type template struct {
 	env  map[string]string // environment at declaration time
 	run  func() string     // build + run, returns the outcome (without output stream / exit codes)
 	must string            // the outcome must contain this text (absolute expectation)
+	setsEnv bool           // changes the environment while it runs: not usable concurrently
 }
 
 // runHere calls Run on the current goroutine; an exit ends the goroutine, so templates that may
@@ -117,7 +118,7 @@ var templates = []*template{
 		x := app.IntsArg("X", nil, "")
 		return outcome(app, []string{"t1", "-a", "v", "1", "2"}, func() string { return fmt.Sprintf("a=%q X=%v", *a, *x) })
 	}},
-	{name: "T2 option backed by $VQ_S (=one at declaration, changed to `later` before Run)", env: map[string]string{"VQ_S": "one"}, must: `s="one"`, run: func() string {
+	{name: "T2 option backed by $VQ_S (=one at declaration, changed to `later` before Run)", env: map[string]string{"VQ_S": "one"}, must: `s="one"`, setsEnv: true, run: func() string {
 		app := cli.App("t2", "")
 		app.ErrorHandling = flag.ContinueOnError
 		app.Spec = "-s [-a]"
@@ -197,6 +198,15 @@ var templates = []*template{
 		v := app.BoolOpt("v verbose", false, "")
 		n := app.IntsArg("N", nil, "")
 		return outcome(app, []string{"t10", "-v", "zz", "2", "yy"}, func() string { return fmt.Sprintf("v=%v N=%v", *v, *n) })
+	}},
+	{name: "T11 option group with an env-backed member ($VQ_S) absent from a non-empty command line", env: map[string]string{"VQ_S": "two"}, run: func() string {
+		app := cli.App("t11", "")
+		app.ErrorHandling = flag.ContinueOnError
+		app.Spec = "[-ev] ARG [-ev]"
+		e := app.String(cli.StringOpt{Name: "e", EnvVar: "VQ_S"})
+		v := app.BoolOpt("v", false, "")
+		a := app.StringArg("ARG", "", "")
+		return outcome(app, []string{"t11", "-v", "x", "-e", "cli"}, func() string { return fmt.Sprintf("e=%q v=%v ARG=%q", *e, *v, *a) })
 	}},
 }
 
@@ -414,18 +424,21 @@ func runRacePass(c *Ctx) {
 	if c.Thorough() {
 		rounds = 300
 	}
-	// templates that do not touch the environment (a concurrent Setenv would be a legitimate influence)
+	// templates that do not change the environment while running (a concurrent Setenv would be a legitimate
+	// influence); the variable they read is set once, before any goroutine starts
+	os.Setenv("VQ_S", "fixed")
 	var ts []*template
 	for _, t := range templates {
-		if t.env == nil {
+		if !t.setsEnv {
 			ts = append(ts, t)
 		}
 	}
 	want := make([]string, len(ts))
 	for i, t := range ts {
-		want[i], _, _ = runTemplate(t)
+		done := make(chan struct{})
+		go func() { defer close(done); want[i] = "exited"; want[i] = maskConv(t.run()) }()
+		<-done
 	}
-	os.Setenv("VQ_S", "fixed")
 	n := 16
 	for r := 0; r < rounds; r++ {
 		c.Beat()
@@ -436,7 +449,7 @@ func runRacePass(c *Ctx) {
 			go func(g int) {
 				defer wg.Done()
 				got[g] = "exited"
-				got[g] = ts[(g+r)%len(ts)].run()
+				got[g] = maskConv(ts[(g+r)%len(ts)].run())
 			}(g)
 		}
 		wg.Wait()
